@@ -102,9 +102,21 @@ def render(b: B, ctx=0) -> str:
     if b.op == "atom":
         return f"({b.text})" if b.prec < ctx else b.text
     if b.op == "not":
+        # rendered in negation normal form, so that a De Morgan rewrite of a check yields the same Lean text
         inner = b.args[0]
+        if inner.op == "not":
+            return render(inner.args[0], ctx)
+        if inner.op == "and":
+            return render(B("or", tuple(B("not", (x,)) for x in inner.args)), ctx)
+        if inner.op == "or":
+            return render(B("and", tuple(B("not", (x,)) for x in inner.args)), ctx)
         if inner.op == "atom" and inner.prec >= 100:
             return "!" + inner.text
+        if inner.op == "atom" and inner.prec == 50:
+            for a_, b_ in ((" == ", " != "), (" != ", " == ")):
+                if inner.text.count(a_) == 1 and inner.text.count(b_) == 0 and "(" not in inner.text.split(a_)[0].replace("Int.ofNat (", "").replace("(size", "") :
+                    t = inner.text.replace(a_, b_)
+                    return f"({t})" if 50 < ctx else t
         return "!(" + render(inner) + ")"
     if b.op == "and":
         s = " && ".join(render(x, 36) for x in b.args)
@@ -800,6 +812,130 @@ class Tr:
         return body
 
 
+
+# ------------------------------------------------------------------ auxiliary helpers are inlined
+
+def elim_returns(stmts):
+    """the same statements without `return` (continuations are copied into the branches that fall through)."""
+    if not stmts:
+        return []
+    s, rest = stmts[0], list(stmts[1:])
+    if isinstance(s, ast.Return):
+        if s.value is not None and not (isinstance(s.value, ast.Constant) and s.value.value is None):
+            raise Untranslatable("auxiliary helper returns a value")
+        return []
+    if isinstance(s, ast.If) and any(isinstance(n, ast.Return) for n in ast.walk(s)):
+        body = elim_returns(list(s.body) + rest) or [ast.Pass()]
+        orelse = elim_returns(list(s.orelse) + rest)
+        return [ast.If(test=s.test, body=body, orelse=orelse)]
+    if any(isinstance(n, ast.Return) for n in ast.walk(s)):
+        raise Untranslatable("return inside a compound statement of an auxiliary helper")
+    return [s] + elim_returns(rest)
+
+
+class _Rename(ast.NodeTransformer):
+    def __init__(self, mapping):
+        self.mapping = mapping
+
+    def visit_Name(self, node):
+        if node.id in self.mapping:
+            return copy.deepcopy(self.mapping[node.id]) if isinstance(node.ctx, ast.Load) or isinstance(self.mapping[node.id], ast.Name) else node
+        return node
+
+
+_INL = [0]
+
+
+def inline_aux_calls(fn_node: ast.FunctionDef, mod, is_helper, depth=0) -> ast.FunctionDef:
+    """replace statement-level calls `f(args)` of module-level torcheval functions that are not check helpers
+    themselves (a validation fragment factored out into its own function) by the callee's body: parameters that
+    receive a plain name / constant are substituted, other arguments are bound to a fresh local first, the callee's
+    own locals are renamed, early returns are eliminated.  A pure "extract function" refactoring of a check helper
+    thereby yields the Lean term it yielded before."""
+    def simple(a):
+        return isinstance(a, (ast.Name, ast.Constant))
+
+    def try_inline(call: ast.Call):
+        if not isinstance(call.func, ast.Name) or is_helper(call.func.id):
+            return None
+        obj = getattr(mod, call.func.id, None)
+        if not inspect.isfunction(obj) or not getattr(obj, "__module__", "").startswith("torcheval"):
+            return None
+        callee = _fn_ast(inspect.unwrap(obj))
+        if callee is None or callee.args.vararg or callee.args.kwarg or any(isinstance(a, ast.Starred) for a in call.args):
+            return None
+        allowed = (ast.If, ast.Raise, ast.Assert, ast.Return, ast.Expr, ast.Pass, ast.Assign, ast.AnnAssign)
+        body = [st for st in callee.body if not (isinstance(st, ast.Expr) and isinstance(st.value, ast.Constant))]
+        for st in body:
+            for n in ast.walk(st):
+                if isinstance(n, ast.stmt) and not isinstance(n, allowed):
+                    return None
+        pos = callee.args.posonlyargs + callee.args.args
+        defaults = [None] * (len(pos) - len(callee.args.defaults)) + list(callee.args.defaults)
+        params = list(zip(pos, defaults)) + list(zip(callee.args.kwonlyargs, callee.args.kw_defaults))
+        bound = {}
+        for (a, _d), v in zip(pos and [(x, None) for x in pos], call.args):
+            bound[a.arg] = v
+        for kw in call.keywords:
+            if kw.arg is None:
+                return None
+            bound[kw.arg] = kw.value
+        _INL[0] += 1
+        tag = f"__inl{_INL[0]}"
+        pre, mapping = [], {}
+        for a, d in params:
+            v = bound.get(a.arg, d)
+            if v is None:
+                return None
+            if simple(v):
+                mapping[a.arg] = v
+            else:
+                tmp = ast.Name(id=a.arg + tag, ctx=ast.Load())
+                pre.append(ast.Assign(targets=[ast.Name(id=a.arg + tag, ctx=ast.Store())], value=v, lineno=call.lineno))
+                mapping[a.arg] = tmp
+        assigned = {t.id for st in body for n in ast.walk(st) if isinstance(n, (ast.Assign, ast.AnnAssign))
+                    for t in (n.targets if isinstance(n, ast.Assign) else [n.target]) if isinstance(t, ast.Name)}
+        for nme in assigned:
+            if nme in mapping and not isinstance(mapping[nme], ast.Name):
+                return None
+            mapping[nme] = ast.Name(id=nme + tag, ctx=ast.Load())
+        try:
+            body = elim_returns([copy.deepcopy(st) for st in body])
+        except Untranslatable:
+            return None
+        ren = _Rename(mapping)
+        out = []
+        for st in body:
+            st = ren.visit(st)
+            for n in ast.walk(st):
+                if isinstance(n, ast.Name) and isinstance(n.ctx, ast.Store) and n.id in mapping and isinstance(mapping[n.id], ast.Name):
+                    n.id = mapping[n.id].id
+            out.append(st)
+        callee_mod = importlib.import_module(obj.__module__)
+        wrapper = ast.FunctionDef(name="_", args=callee.args, body=out or [ast.Pass()], decorator_list=[], lineno=call.lineno)
+        if depth < 3:
+            out = inline_aux_calls(wrapper, callee_mod, is_helper, depth + 1).body
+        return pre + out
+
+    def go(stmts):
+        res = []
+        for st in stmts:
+            if isinstance(st, ast.Expr) and isinstance(st.value, ast.Call):
+                rep = try_inline(st.value)
+                if rep is not None:
+                    res.extend(rep)
+                    continue
+            if isinstance(st, ast.If):
+                st = ast.If(test=st.test, body=go(st.body) or [ast.Pass()], orelse=go(st.orelse))
+                ast.copy_location(st, stmts[0])
+            res.append(st)
+        return res
+
+    new = copy.deepcopy(fn_node)
+    new.body = go(new.body)
+    ast.fix_missing_locations(new)
+    return new
+
 # ------------------------------------------------------------------ discovery
 
 def functional_modules():
@@ -821,6 +957,7 @@ def discover() -> dict[str, Helper]:
         tree = ast.parse(src)
         for node in tree.body:
             if isinstance(node, ast.FunctionDef) and HELPER_RE.match(node.name):
+                node = inline_aux_calls(node, mod, lambda n: bool(HELPER_RE.match(n)))
                 h = Helper(node.name, mod.__name__, node, inspect.getsourcefile(mod))
                 a = node.args
                 pos = a.posonlyargs + a.args
@@ -948,7 +1085,14 @@ def trace_entry(fn, helpers_by_name, cls=None, depth=0, ent: Entry | None = None
     def calls_of(s) -> str:
         """resolve the calls of one statement: 'stop' | 'resolved' | 'none'"""
         resolved = False
-        for c in [n for n in ast.walk(s) if isinstance(n, ast.Call)]:
+        def post_order(n, acc):
+            # Python evaluates the arguments of a call before the call itself
+            for ch in ast.iter_child_nodes(n):
+                post_order(ch, acc)
+            if isinstance(n, ast.Call):
+                acc.append(n)
+            return acc
+        for c in post_order(s, []):
             f = c.func
             tgt = None
             if isinstance(f, ast.Name):
